@@ -825,6 +825,31 @@ func (s *State) Root(v ssa.Value) ssa.Value {
 	return v
 }
 
+// RootChain returns v and every value it is successively mapped to on the way
+// to Root(v): a helper's parameter, the caller's argument, what an inlined
+// call's result denoted inside the callee, … (a property that holds of one
+// of the intermediate values need not be visible at the end of the chain).
+func (s *State) RootChain(v ssa.Value) []ssa.Value {
+	out := []ssa.Value{v}
+	for i := 0; i < 16; i++ {
+		all := ResolveAll(v)
+		if len(all) != 1 {
+			return out
+		}
+		r := all[0]
+		if r != v {
+			out = append(out, r)
+		}
+		b, ok := s.bind[r]
+		if !ok {
+			return out
+		}
+		out = append(out, b)
+		v = b
+	}
+	return out
+}
+
 // SameRoot reports whether a and b denote the same value after mapping
 // inlined parameters back to their arguments.
 func (s *State) SameRoot(a, b ssa.Value) bool {
